@@ -1546,7 +1546,9 @@ class NameCheckVisitor(node_visitor.ReplacingNodeVisitor):
         if varname in self.options.get_value_for(IgnoredForIncompatibleOverride):
             return
         for base_class, base_value in self._get_base_class_attributes(varname, node):
-            can_assign = self._can_assign_to_base(base_value, value, base_class, node)
+            can_assign = self._can_assign_to_base(
+                base_value, value, base_class, node, varname
+            )
             if isinstance(can_assign, CanAssignError):
                 error = CanAssignError(
                     children=[
@@ -1580,6 +1582,7 @@ class NameCheckVisitor(node_visitor.ReplacingNodeVisitor):
         child_value: Value,
         base_class: Union[type, str],
         node: ast.AST,
+        varname: Optional[str] = None,
     ) -> CanAssign:
         if base_value is UNINITIALIZED_VALUE:
             return {}
@@ -1589,7 +1592,12 @@ class NameCheckVisitor(node_visitor.ReplacingNodeVisitor):
                     base_value.val, child_value, base_class, node
                 )
             if callable(base_value.val):
-                return self._can_assign_to_base_callable(base_value, child_value)
+                return self._can_assign_to_base_callable(
+                    base_value,
+                    child_value,
+                    base_is_static=_is_staticmethod_of(base_class, varname),
+                    child_is_static=_is_staticmethod_of(self.current_class, varname),
+                )
         return base_value.can_assign(child_value, self)
 
     def _can_assign_to_base_property(
@@ -1627,7 +1635,12 @@ class NameCheckVisitor(node_visitor.ReplacingNodeVisitor):
             return get_direction
 
     def _can_assign_to_base_callable(
-        self, base_value: KnownValue, child_value: Value
+        self,
+        base_value: KnownValue,
+        child_value: Value,
+        *,
+        base_is_static: bool = False,
+        child_is_static: bool = False,
     ) -> CanAssign:
         base_sig = self.signature_from_value(base_value)
         if not isinstance(base_sig, (Signature, OverloadedSignature)):
@@ -1635,10 +1648,11 @@ class NameCheckVisitor(node_visitor.ReplacingNodeVisitor):
         child_sig = self.signature_from_value(child_value)
         if not isinstance(child_sig, (Signature, OverloadedSignature)):
             return CanAssignError(f"{child_value} is not callable")
-        base_bound = base_sig.bind_self(ctx=self)
+        # A staticmethod has no self parameter to strip.
+        base_bound = base_sig if base_is_static else base_sig.bind_self(ctx=self)
         if base_bound is None:
             return {}
-        child_bound = child_sig.bind_self(ctx=self)
+        child_bound = child_sig if child_is_static else child_sig.bind_self(ctx=self)
         if child_bound is None:
             return CanAssignError(f"{child_value} is missing a 'self' argument")
         return base_bound.can_assign(child_bound, self)
@@ -6082,6 +6096,12 @@ def _static_hasattr(value: object, attr: str) -> bool:
         return False
     else:
         return True
+
+
+def _is_staticmethod_of(cls: object, varname: Optional[str]) -> bool:
+    if varname is None or not isinstance(cls, type):
+        return False
+    return isinstance(cls.__dict__.get(varname), staticmethod)
 
 
 def _has_annotation_for_attr(typ: type, attr: str) -> bool:
